@@ -41,6 +41,7 @@ fn dispatch(cmd: &str, rest: &[String]) {
 		"candle-record" => candle::record(rest),
 		"convert-replay" => convert::replay(rest),
 		"convert-record" => convert::record(rest),
+		"renko-snapshot" => convert::renko_snapshot(rest),
 		"laws-record" => laws::record(rest),
 		"laws-impulse" => laws::impulse(rest),
 		"prefix-record" => prefix::record(rest),
